@@ -89,6 +89,7 @@ contract(
     returns=Tuple(Opt(Ref(NODE)), Opt(Ref(NODE))),
     globals={"ast": M.fea_shim(), "isinstance": M.ISINSTANCE},
     requires=["not self.context.isVariable"],
+    merge_branches=False,
     ensures={**_side(0, "entry"), **_side(1, "exit"),
              "two-nodes": "implies(result[0] is not None and result[1] is not None, result[0] != result[1])"},
     canaries={"entry-always-null": "result[0] is None", "exit-not-rounded": "result[1] is None or result[1].x == 0"},
@@ -116,6 +117,7 @@ contract(
     returns=CONTRACTS[_GAS].returns,
     globals={"ast": M.fea_shim(), "isinstance": M.ISINSTANCE},
     requires=["not self.context.isVariable"],
+    merge_branches=False,
     ensures={**_side_presence(0, "entry"), **_side_presence(1, "exit"),
              "two-nodes": "implies(result[0] is not None and result[1] is not None, result[0] != result[1])"},
     canaries={"entry-always-null": "result[0] is None", "exit-never-null": "result[1] is not None"},
@@ -151,53 +153,61 @@ GCP_COMMON = dict(props=["C18"], params={"glyphs": ITEMS}, returns=PAIRS, merge_
 
 
 # sorted() of a list of pairs of str: Python compares tuples lexicographically; the facts used here: same length, same elements, and the FIRST
-# components are in non-decreasing order (a consequence of the lexicographic order)
-@M.shim_function(
-    "sorted_pairs",
-    "sorted(xs) for a list of (str, str) tuples: a list r with len(r) == len(xs), every r[k] is some xs[j] and every xs[j] is some r[k], and r[k1][0] <= r[k2][0] for k1 < k2 "
-    "and `p in r` iff `p in xs` (consequences of: sorted returns the lexicographically sorted permutation)",
-)
-def _sorted_pairs(ex, st, args, kwargs, node):
-    from pyvc.core import Unsupported, fresh_name, lift
-
-    (v,) = args
-    if kwargs or v.ty != PAIRS:
-        raise Unsupported(f"sorted() of {v.ty}", node)
-    s = lift(v)
-    r = z3.Function("c18_sorted_pairs", PAIRS.sort(), PAIRS.sort())(s)
-    if ("c18sorted", r.get_id()) in st.ghost:
-        return Val(PAIRS, r)
-    st.ghost[("c18sorted", r.get_id())] = r
-    k, j, k2 = z3.Int(fresh_name("sk")), z3.Int(fresh_name("sj")), z3.Int(fresh_name("sk2"))
-    first = PAIRS.elem.sort().accessor(0, 0)
-    st.assume(z3.Length(r) == z3.Length(s))
-    # (the permutation and its inverse as functions: position k of the result holds element sigma(k) of the argument, and back)
-    sigma = z3.Function(fresh_name("sigma"), z3.IntSort(), z3.IntSort())
-    tau = z3.Function(fresh_name("tau"), z3.IntSort(), z3.IntSort())
-    st.assume(z3.ForAll([k], z3.Implies(z3.And(0 <= k, k < z3.Length(r)), z3.And(0 <= sigma(k), sigma(k) < z3.Length(s), r[k] == s[sigma(k)]))))
-    st.assume(z3.ForAll([j], z3.Implies(z3.And(0 <= j, j < z3.Length(s)), z3.And(0 <= tau(j), tau(j) < z3.Length(r), r[tau(j)] == s[j]))))
-    st.assume(z3.ForAll([k, k2], z3.Implies(z3.And(0 <= k, k < k2, k2 < z3.Length(r)), first(r[k]) <= first(r[k2]))))
-    x = z3.Const(fresh_name("sx"), PAIRS.elem.sort())
-    st.assume(z3.ForAll([x], z3.Contains(r, z3.Unit(x)) == z3.Contains(s, z3.Unit(x))))  # `p in sorted(xs)` iff `p in xs`
-    return Val(PAIRS, r)
-
-
+# components are in non-decreasing order (a consequence of the lexicographic order).  Each contract variant assumes only the part it needs
+# (`parts`): the unused facts about sequences are what slows z3-5.1 down.
 from pyvc.symex import FuncRef  # noqa: E402
 
-SORTED_PAIRS = M.native_global(Val.obj(FuncRef(_sorted_pairs, "c17shim.sorted_pairs")), sorted)
+
+def make_sorted_pairs(tag, parts=("from", "back", "order", "contains")):
+    @M.shim_function(
+        "sorted_pairs_" + tag,
+        "sorted(xs) for a list of (str, str) tuples: a list r with len(r) == len(xs), every r[k] is some xs[j] [from] and every xs[j] is some r[k] [back], r[k1][0] <= r[k2][0] for "
+        "k1 < k2 [order] and `p in r` iff `p in xs` [contains] (consequences of: sorted returns the lexicographically sorted permutation)  [this variant: length, " + ", ".join(parts) + "]",
+    )
+    def _sorted_pairs(ex, st, args, kwargs, node):
+        from pyvc.core import Unsupported, fresh_name, lift
+
+        (v,) = args
+        if kwargs or v.ty != PAIRS:
+            raise Unsupported(f"sorted() of {v.ty}", node)
+        s = lift(v)
+        r = z3.Function("c18_sorted_pairs", PAIRS.sort(), PAIRS.sort())(s)
+        if ("c18sorted", tag, r.get_id()) in st.ghost:
+            return Val(PAIRS, r)
+        st.ghost[("c18sorted", tag, r.get_id())] = r
+        k, j, k2 = z3.Int(fresh_name("sk")), z3.Int(fresh_name("sj")), z3.Int(fresh_name("sk2"))
+        first = PAIRS.elem.sort().accessor(0, 0)
+        st.assume(z3.Length(r) == z3.Length(s))
+        # (the permutation and its inverse as functions: position k of the result holds element sigma(k) of the argument, and back)
+        if "from" in parts:
+            sigma = z3.Function(fresh_name("sigma"), z3.IntSort(), z3.IntSort())
+            st.assume(z3.ForAll([k], z3.Implies(z3.And(0 <= k, k < z3.Length(r)), z3.And(0 <= sigma(k), sigma(k) < z3.Length(s), r[k] == s[sigma(k)]))))
+        if "back" in parts:
+            tau = z3.Function(fresh_name("tau"), z3.IntSort(), z3.IntSort())
+            st.assume(z3.ForAll([j], z3.Implies(z3.And(0 <= j, j < z3.Length(s)), z3.And(0 <= tau(j), tau(j) < z3.Length(r), r[tau(j)] == s[j]))))
+        if "order" in parts:
+            st.assume(z3.ForAll([k, k2], z3.Implies(z3.And(0 <= k, k < k2, k2 < z3.Length(r)), first(r[k]) <= first(r[k2]))))
+        if "contains" in parts:
+            x = z3.Const(fresh_name("sx"), PAIRS.elem.sort())
+            st.assume(z3.ForAll([x], z3.Contains(r, z3.Unit(x)) == z3.Contains(s, z3.Unit(x))))  # `p in sorted(xs)` iff `p in xs`
+        return Val(PAIRS, r)
+
+    return M.native_global(Val.obj(FuncRef(_sorted_pairs, "c17shim.sorted_pairs_" + tag)), sorted)
+
+
+SORTED_PAIRS = make_sorted_pairs("full")
 _GLOBALS = {"sorted": SORTED_PAIRS, "set": NAMESET_CTOR}
 
 contract(
     GCP,
     name="only",
     **GCP_COMMON,
-    globals=_GLOBALS,
+    globals={**_GLOBALS, "sorted": make_sorted_pairs("from", ("from",))},
     ensures={
         # a pair is listed only if it has one of the two shapes and BOTH names occur among the glyphs' anchors
         "pair-shapes": "all(" + _pair_ok("result[k]") + " for k in range(len(result)))",
         "entry-name-occurs": "all(" + _occurs("result[k][0]") + " for k in range(len(result)))",
         "exit-name-occurs": "all(" + _occurs("result[k][1]") + " for k in range(len(result)))",
-        "increasing-entry-names": "all(all(implies(k1 < k2, result[k1][0] <= result[k2][0]) for k2 in range(len(result))) for k1 in range(len(result)))",
     },
     canaries={"empty": "len(result) == 0"},
     locals={"anchors": Ref(NAMESET), "anchorPairs": PAIRS},
@@ -210,6 +220,17 @@ contract(
             "exit-occurs": "all(" + _occurs("anchorPairs[k][1]") + " for k in range(len(anchorPairs)))",
         }),
     },
+)
+
+contract(
+    GCP,
+    name="order",
+    **GCP_COMMON,
+    globals={**_GLOBALS, "sorted": make_sorted_pairs("order", ("order",))},
+    ensures={"increasing-entry-names": "all(all(implies(k1 < k2, result[k1][0] <= result[k2][0]) for k2 in range(len(result))) for k1 in range(len(result)))"},
+    canaries={"strictly": "all(result[k][0] < result[k + 1][0] for k in range(len(result) - 1))"},
+    locals={"anchors": Ref(NAMESET), "anchorPairs": PAIRS},
+    loops={LOOP1: Loop(index="i", invariants={}), LOOP2: Loop(done="D", invariants={})},
 )
 
 # The two string computations of the loop, as NAMED functions: under a quantifier they stay uninterpreted symbols (string theory under
@@ -333,7 +354,7 @@ CONTRACTS["ufo2ft.featureWriters.cursFeatureWriter:CursFeatureWriter._getAnchors
     curs_cases, _getanchors_build, call=lambda fn, a: M.P(fn(a["self"], a["glyphName"], a["entryName"], a["exitName"], glyph=a["glyph"])))
 CONTRACTS[_GA_KEY + "#c18_CW"].runtime = Runtime(G.getanchor_cases, lambda d: G.getanchor_build({**d, "g": d["g"]}, writer=lambda dd: curs_writer({**dd, "skip": dd["skip"]})),
                                                   call=lambda fn, a: fn(a["self"], a["glyphName"], a["anchorName"], anchor=a["anchor"]))
-for _v in ("only", "every"):
+for _v in ("only", "order", "every"):
     CONTRACTS[GCP + "#" + _v].runtime = Runtime(curs_cases, lambda d: {"glyphs": list(curs_writer(d).getOrderedGlyphSet().items())}, call=lambda fn, a: fn(a["glyphs"]))
 
 
@@ -412,6 +433,9 @@ MCS_COMMON = dict(
     globals={"ast": M.fea_shim(), "isinstance": M.ISINSTANCE},
     requires=["not self.context.isVariable"],
     merge_branches=False,
+    # (the key-position Skolem fact and "every position holds a key" instantiate each other; that the GlyphName node created in an iteration is a NEW key
+    # follows from the membership-form invariant `old-keys` instead)
+    dict_key_positions=False,
     calls={_GAS: _GAS + "#presence"},  # (#entry / #exit below read the coordinates: they call through the full contract)
     # (new nodes only; declared as the fields they are stored in because the loop havoc is per field)
     modifies=["c17_Node.kind", "c17_Node.glyph", "c17_Node.glyphclass", "c17_Node.entryAnchor", "c17_Node.exitAnchor"],
@@ -421,14 +445,17 @@ MCS_COMMON = dict(
     ghost={MCS_PUT: ["src = src + [i]"], MCS_GET: ["K0 = list(cursiveAnchors) + []", "c0 = {**cursiveAnchors}", "s0 = src + []"]},
     hints={MCS_PUT: [
         # the one new entry sits at the end; the earlier entries are untouched
-        f"len({_KS}) == len(K0) + 1 and cursiveAnchors[{_KS}[len(K0)]][0] == entryAnchor and cursiveAnchors[{_KS}[len(K0)]][1] == exitAnchor",
+        f"len({_KS}) == len(K0) + 1",
+        f"all({_KS}[p] == K0[p] for p in range(len(K0)))",
+        f"cursiveAnchors[{_KS}[len(K0)]][0] == entryAnchor and cursiveAnchors[{_KS}[len(K0)]][1] == exitAnchor",
         f"{_KS}[len(K0)].kind == 'GlyphName' and {_KS}[len(K0)].glyph == glyph.name and allocated({_KS}[len(K0)])",
-        f"all({_KS}[p] == K0[p] and cursiveAnchors[K0[p]] == c0[K0[p]] for p in range(len(K0)))",
+        f"all(cursiveAnchors[K0[p]] == c0[K0[p]] for p in range(len(K0)))",
         "len(src) == len(s0) + 1 and len(s0) == len(K0) and src[len(K0)] == i and all(src[p] == s0[p] for p in range(len(s0)))",
     ]},
 )
 # shared by the variants: one dict entry per recorded glyph, keyed by a GlyphName node of ITS name (the keys are distinct objects)
 _INV1 = {
+    "old-keys": "all(allocated(kn) for kn in cursiveAnchors)",
     "len": f"len(src) == len(cursiveAnchors) and len(cursiveAnchors) == len({_KS})",
     "bound": "all(0 <= src[p] and src[p] < i for p in range(len(src)))",
     "keys": f"all(allocated({_KS}[p]) and allocated({_V}[0]) and allocated({_V}[1]) and {_KS}[p].kind == 'GlyphName' and {_KS}[p].glyph == glyphs[src[p]].name"
@@ -469,8 +496,8 @@ contract(
 
 # Glyph order as its own variant (the adjacent form `src[p] < src[p + 1]` keeps producing the next position: a chain of instances that slowed
 # every other obligation of the function down when it was a hypothesis of all of them).
-_SLIM_HINTS = {MCS_PUT: [MCS_COMMON["hints"][MCS_PUT][0], MCS_COMMON["hints"][MCS_PUT][2], MCS_COMMON["hints"][MCS_PUT][3]]}
-_OLD_KEYS = f"all(allocated({_KS}[p]) for p in range(len({_KS})))"  # (so that the GlyphName node created next is a NEW key)
+_SLIM_HINTS = {MCS_PUT: [MCS_COMMON["hints"][MCS_PUT][0], MCS_COMMON["hints"][MCS_PUT][1], MCS_COMMON["hints"][MCS_PUT][5]]}
+_OLD_KEYS = _INV1["old-keys"]  # (so that the GlyphName node created next is a NEW key)
 contract(
     MCS,
     name="order",
@@ -489,7 +516,7 @@ _ANY = "(" + _present("glyphs[a]", "entry") + " or " + _present("glyphs[a]", "ex
 contract(
     MCS,
     name="complete",
-    **{**MCS_COMMON, "hints": _SLIM_HINTS, "dict_key_positions": False,
+    **{**MCS_COMMON, "hints": _SLIM_HINTS,
        "locals": {**MCS_LOCALS, "pos": Dict(INT, INT)},
        # pos[a]: the record position of glyph a (a flat ghost witness instead of an existential under the quantifier over the glyphs)
        "ghost_vars": {**MCS_COMMON["ghost_vars"], "pos": (Dict(INT, INT), "{}")},
@@ -501,7 +528,7 @@ contract(
     loops={
         MCS_LOOP1: Loop(index="i", invariants={
             "len": _INV1["len"],
-            "old-keys": "all(allocated(kn) for kn in cursiveAnchors)",  # (membership form: no key positions needed)
+            "old-keys": _OLD_KEYS,
             "witness": "all(0 <= pos[a] and pos[a] < len(src) and src[pos[a]] == a for a in pos)",
             "complete": "all(implies(" + _ANY + ", a in pos) for a in range(i))",
         }),
